@@ -132,8 +132,11 @@ func runInuseScan(c Case) interface{} {
 		}
 		bin := self
 		if h.Exe != "" {
-			if err := copyFile(self, h.Exe); err != nil {
-				return obj("harness-error", err.Error())
+			// a second helper may run the same copy: writing it again would be ETXTBSY
+			if _, err := os.Stat(h.Exe); err != nil {
+				if err := copyFile(self, h.Exe); err != nil {
+					return obj("harness-error", err.Error())
+				}
 			}
 			bin = h.Exe
 		}
